@@ -256,6 +256,9 @@ Error CodeHolder::init(const Environment& environment, const CpuFeatures& cpu_fe
   // Create a default section and insert it to the `_sections` array.
   Error err = CodeHolder_init_section_storage(this);
   if (ASMJIT_UNLIKELY(err != Error::kOk)) {
+    // One of the two arrays could have been allocated - they must not reference the arena memory after its reset.
+    _sections.reset();
+    _sections_by_order.reset();
     _arena.reset();
     return make_error(Error::kOutOfMemory);
   }
@@ -281,6 +284,8 @@ Error CodeHolder::reinit() noexcept {
     // There is no memory for the .text section - the only consistent state is a fully reset CodeHolder.
     CodeHolder_detach_emitters(this);
     CodeHolder_reset_env_and_attached_logger_and_eh(this);
+    _sections.reset();
+    _sections_by_order.reset();
     _arena.reset();
     return make_error(Error::kOutOfMemory);
   }
